@@ -235,9 +235,10 @@ def r5_shared_defaults(ctx):
     from ..effects import SharedDefaults
     ctx.rule("C13.R5", "no write through a class-level / module-level container or a mutable default argument (package-wide, through aliases)", 10)
     sd = SharedDefaults(ctx.ix)
+    cg = callgraph(ctx)
     n = 0
     for f in ctx.ix.iter_funcs():
-        for node, desc in sd.writes(f):
+        for node, desc in sd.writes(f) + sd.handed_over(f, cg):
             n += 1
             ctx.violation("C13.R5", f, node, desc + ": the change outlives the call, so later calls (on any object of the process) no longer depend only on their own inputs")
     for ck, d in sorted(sd.class_level.items()):
@@ -274,7 +275,13 @@ def rules(ctx):
 FITF = "src/leaspy/algo/fit/mcmc_saem.py"
 PM = "src/leaspy/algo/personalize/mcmc.py"
 MC = "src/leaspy/models/mcmc_saem_compatible.py"
+SCM = "src/leaspy/algo/personalize/scipy_minimize.py"
 VARIANTS = [
+    V("class-default-setdefault", SCM, "        self.format_convergence_issues = self.algo_parameters.get(", "        self.scipy_minimize_params.setdefault(\"tol\", 1e-6)\n        self.format_convergence_issues = self.algo_parameters.get(", "C13.R5"),
+    V("class-default-nested-write", SCM, "        self.format_convergence_issues = self.algo_parameters.get(",
+      "        self.DEFAULT_SCIPY_MINIMIZE_PARAMS_WITHOUT_JACOBIAN[\"options\"][\"maxiter\"] = 50\n        self.format_convergence_issues = self.algo_parameters.get(", "C13.R5"),
+    V("silent-class-default-copied", SCM, "        self.format_convergence_issues = self.algo_parameters.get(",
+      "        self.scipy_minimize_params = dict(self.scipy_minimize_params)\n        self.scipy_minimize_params.setdefault(\"tol\", 1e-6)\n        self.format_convergence_issues = self.algo_parameters.get(", None),
     V("fit-keeps-data", FITF, "            # Do not keep training data nor individual latent variables in the model\n            model.reset_data_variables(model_state)\n            model_state.put_individual_latent_variables(None)\n", "", "C13.R1"),
     V("fit-keeps-latents", FITF, "            model_state.put_individual_latent_variables(None)\n        model.state = model_state", "        model.state = model_state", "C13.R1"),
     V("fit-no-clone", FITF, "        model_state = state.clone()\n", "        model_state = state\n", "C13.R1"),
